@@ -522,7 +522,7 @@ def effect_canon(f, cells=False):
             d = t["dest"]
             named = (bool(f.locals[d["l"]]["name"]) and d["l"] > f.argc) or d["l"] == 0 or bool(d["p"])
             if eff or named or f.locals[d["l"]]["ty"] == "()":
-                lines.append("CALL %s%s(%s)" % (("local:%s = " % (f.locals[d["l"]]["name"] or "ret")) if named else "", c, ",".join(canon(sy.operand(a)) for a in t["args"])))
+                lines.append("CALL%s %s%s(%s)" % ("" if eff or not named else "~", ("local:%s = " % (f.locals[d["l"]]["name"] or "ret")) if named else "", c, ",".join(canon(sy.operand(a)) for a in t["args"])))
         elif t["t"] == "switch":
             ls = f.lsuccs(i)
             if len(set(ls)) >= 2:
